@@ -148,3 +148,273 @@ def c01(tier, seed):
                invariants=["InvSane", "InvUciInjective"],
                play_quick=(14, 3, 40, 2), play_thorough=(56, 8, 100, 2),
                assumptions=["C01 is judged at positions reachable by legal play (both kings present, side not to move not in check)"])
+
+
+FAMQ = [("CASTLE", 24), ("EP", 400), ("KXK", 300), ("PROMO", 40)]
+FAMT = [("CASTLE", 1), ("EP", 12), ("KXK", 8), ("PROMO", 2)]
+ALLROOTS = [START, KIWI, POS3, POS4, POS5, CAST, PROM, EPR]
+
+
+@check("C02")
+def c02(tier, seed):
+    game_check("C02", {"C02"}, tier, seed,
+               fam_quick=[("CASTLE", 16), ("EP", 400), ("KXK", 600), ("PROMO", 24)], fam_thorough=FAMT,
+               mc_roots_quick=[CAST, EPR], mc_depth_quick=2, mc_roots_thorough=ALLROOTS, mc_depth_thorough=3,
+               invariants=["InvSane"],
+               play_quick=(14, 3, 50, 1), play_thorough=(56, 8, 120, 2),
+               assumptions=["the successor is judged for every generated move (king captures included), after every step of every trace"])
+
+
+@check("C03")
+def c03(tier, seed):
+    game_check("C03", {"C03"}, tier, seed,
+               fam_quick=[("CASTLE", 32), ("EP", 500), ("KXK", 600), ("PROMO", 32)], fam_thorough=FAMT,
+               mc_roots_quick=[CAST, PROM], mc_depth_quick=2, mc_roots_thorough=ALLROOTS, mc_depth_thorough=3,
+               invariants=["InvSane"],
+               play_quick=(14, 3, 30, 3), play_thorough=(56, 6, 80, 4),
+               assumptions=["observables compared: board, side, rights, ep, game length, king locations, hash, score; "
+                            "move lists and exported text are functions of these in a query-pure engine, and query purity is itself judged"])
+
+
+@check("C04")
+def c04(tier, seed):
+    game_check("C04", {"C04"}, tier, seed,
+               fam_quick=FAMQ, fam_thorough=FAMT,
+               mc_roots_quick=[START, CAST], mc_depth_quick=2, mc_roots_thorough=ALLROOTS, mc_depth_thorough=3,
+               invariants=["InvSane", "InvSingleFeature"] if tier == "thorough" else ["InvSane"],
+               play_quick=(14, 3, 50, 2), play_thorough=(56, 8, 120, 2),
+               assumptions=["the key layout stated in spec/Zobrist.tla (anchored by the README start-position hash)",
+                            "text import is compared for texts in the engine's own en-passant convention"])
+
+
+@check("C11")
+def c11(tier, seed):
+    game_check("C11", {"C11"}, tier, seed,
+               fam_quick=FAMQ, fam_thorough=FAMT,
+               mc_roots_quick=[START, EPR], mc_depth_quick=2, mc_roots_thorough=ALLROOTS, mc_depth_thorough=3,
+               invariants=["InvSane", "InvFenRoundTrip"],
+               play_quick=(14, 3, 50, 0), play_thorough=(56, 8, 120, 1),
+               assumptions=["fields 5 and 6 are only required to be numerals"])
+
+
+@check("C16")
+def c16(tier, seed):
+    game_check("C16", {"C16"}, tier, seed,
+               fam_quick=FAMQ, fam_thorough=FAMT,
+               mc_roots_quick=[START, POS3], mc_depth_quick=2, mc_roots_thorough=ALLROOTS, mc_depth_thorough=3,
+               invariants=["InvSane", "InvMirror"],
+               play_quick=(14, 3, 60, 2), play_thorough=(56, 8, 140, 3),
+               assumptions=["score tables are read from the compiled constants of scores.rs at check time",
+                            "either king table is allowed as long as both kings use the same one"])
+
+
+@check("C20")
+def c20(tier, seed):
+    game_check("C20", {"C20"}, tier, seed,
+               fam_quick=[("PROMO", 24), ("CASTLE", 64)], fam_thorough=[("PROMO", 2), ("CASTLE", 4), ("EP", 40)],
+               mc_roots_quick=[START, PROM], mc_depth_quick=2, mc_roots_thorough=ALLROOTS, mc_depth_thorough=3,
+               invariants=["InvSane"],
+               play_quick=(14, 4, 60, 0), play_thorough=(56, 10, 150, 0),
+               assumptions=["glyphs are transliterated by a fixed table; for promotions the origin file may be omitted"])
+
+
+def replay(prop, path):
+    """Re-run one replay file against the current tree; the same judge decides."""
+    obj = json.load(open(path))
+    driver = obj.get("driver")
+    run = core.Run(prop, "quick", 0)
+    vh = prepare()
+    if driver == "game-trace":
+        d = game.trace_dir(prop + "-replay")
+        out = os.path.join(d, "replay.ndjson")
+        core.sh([vh, "replay", "--script", path, "--out", out])
+        res = core.tlc_trace(out)
+        bad = [f for f in res["fails"] if f["p"] in (prop, "PANIC")]
+        for f in bad:
+            print("VIOLATION property=%s replay=%s" % (prop, path))
+            print("  " + json.dumps({"w": f["w"], "d": f["d"]}, ensure_ascii=False)[:600])
+        print("replayed %d events: %s" % (res["events"], "property violated" if bad else "no violation"))
+        sys.exit(1 if bad else 0)
+    elif driver in REPLAYERS:
+        REPLAYERS[driver](prop, obj, path, vh)
+    else:
+        raise core.ToolError("unknown replay driver %r" % driver)
+
+
+REPLAYERS = {}
+
+
+# --------------------------------------------------------------------------- C05
+
+def view_counts(run, module, cfg_body, env, tag, workers=8):
+    """Run the same exploration under VIEW PosView and VIEW HashView; returns the two distinct-state counts."""
+    counts = {}
+    for view in ("PosView", "HashView"):
+        cfg = os.path.join(core.BUILD, "cfg", "%s-%s.cfg" % (tag, view))
+        os.makedirs(os.path.dirname(cfg), exist_ok=True)
+        with open(cfg, "w") as f:
+            f.write(cfg_body + "VIEW %s\n" % view)
+        res = core.tlc_mc(module, cfg, workers=workers, env=env, tag="%s-%s" % (tag, view))
+        if res["violated"]:
+            raise core.ToolError("%s: unexpected violation %s" % (module, res["violated"]))
+        res["output"] = ""
+        run.add_mc(res, {"view": view, "tag": tag})
+        counts[view] = res["distinct"]
+    return counts
+
+
+@check("C05")
+def c05(tier, seed):
+    run = core.Run("C05", tier, seed)
+    vh = prepare()
+    quick = tier == "quick"
+    # (a) single-feature theorem over the real key table (exhaustive: one state per feature class)
+    res = core.tlc_mc("MC_Zobrist", "mc/MC_Zobrist.cfg", workers=4, tag="c05-zob")
+    run.add_mc(res, {"feature_classes": 66})
+    if res["violated"]:
+        run.violation({"w": "key table: " + res["violated"] + " fails (two features share a key, or the state byte / anchor is wrong)",
+                       "d": {"invariant": res["violated"]}}, {"driver": "mc", "module": "MC_Zobrist", "cfg": "mc/MC_Zobrist.cfg"})
+    # (b) collision freedom over explored sets, inside TLC: equal distinct-state counts under the two views
+    fams = [("CASTLE", 1), ("KXK", 16), ("EP", 64), ("PROMO", 4)] if quick else [("CASTLE", 1), ("KXK", 1), ("EP", 4), ("PROMO", 1)]
+    explored = 0
+
+    def fam_counts(spec):
+        fam, stride = spec
+        body = 'SPECIFICATION Spec\nCONSTANTS Fam = "%s" Stride = %d Off = %d\nINVARIANT NoEmit\nCHECK_DEADLOCK FALSE\n' % (fam, stride, seed % stride)
+        return spec, view_counts(run, "Families", body, None, "c05-%s" % fam, workers=4)
+    for (fam, stride), counts in core.pmap(fam_counts, fams, n=3):
+        explored += counts["PosView"]
+        if counts["PosView"] != counts["HashView"]:
+            run.violation({"w": "two distinct positions of family %s share a hash" % fam,
+                           "d": {"family": fam, "stride": stride, "positions": counts["PosView"], "hashes": counts["HashView"]}},
+                          {"driver": "mc-view", "module": "Families", "family": fam, "stride": stride, "off": seed % stride})
+    roots = [START, KIWI] if quick else ALLROOTS
+    depth = 2 if quick else 3
+    path = gen.gen_roots(roots, "roots_C05.json")
+    body = "SPECIFICATION Spec\nCONSTANT MaxDepth = %d\nCHECK_DEADLOCK FALSE\n" % depth
+    counts = view_counts(run, "MC_Chess", body, {"ROOTS": path}, "c05-chess", workers=12)
+    explored += counts["PosView"]
+    if counts["PosView"] != counts["HashView"]:
+        run.violation({"w": "two distinct positions reached by legal play share a hash",
+                       "d": {"roots": roots, "depth": depth, "positions": counts["PosView"], "hashes": counts["HashView"]}},
+                      {"driver": "mc-view", "module": "MC_Chess", "roots": roots, "depth": depth})
+    # (c) real code: single-feature variants imported by the engine; and the positions visited by the drivers
+    d = game.trace_dir("C05")
+    bases = gen.read_roots() + gen.read_roots(os.path.join(core.VERIF, "lib", "fide_roots.txt"))
+    if not quick:
+        famf = families(run, [("CASTLE", 600), ("EP", 9000), ("PROMO", 900), ("KXK", 7000)], seed, "C05b")
+        for f in famf:
+            bases += [l.strip() for l in open(f) if l.strip()]
+    chunks = [bases[i::core.NPROC] for i in range(core.NPROC)]
+
+    def mkvar(ic):
+        i, chunk = ic
+        lst = os.path.join(d, "var-%d.fens" % i)
+        open(lst, "w").write("\n".join(chunk) + "\n")
+        out = os.path.join(d, "var-%d.ndjson" % i)
+        core.sh([vh, "variants", "--fens", lst, "--out", out])
+        return (out, "vh variants (single-feature variations of %d base positions, first: %s)" % (len(chunk), chunk[0]))
+    jobs = core.pmap(mkvar, [(i, c) for i, c in enumerate(chunks) if c])
+    nvar = sum(1 for p, _ in jobs for _ in open(p))
+    game.judge_traces(run, jobs, {"C05"})
+    with open(jobs[0][0]) as f:
+        e = json.loads(f.readline())
+        run.sample({"driver": jobs[0][1], "event": {"ev": "var", "base": "".join(e["base"]), "var": "".join(e["var"]), "b": e["b"], "v": e["v"]}})
+    # positions visited by the play driver: (position, hash) pairs as an initial-state set, two views
+    pj = game.play_traces(run, vh, "C05", 14 if quick else 56, 4 if quick else 10, 60 if quick else 120, 2, seed)
+    pairs = {}
+    for path, _ in pj:
+        with open(path) as f:
+            for l in f:
+                e = json.loads(l)
+                o = e.get("o")
+                if o and e["ev"] in ("new", "push", "pop"):
+                    key = "".join(o["b"]) + o["stm"] + "".join(o["cast"]) + str(o["ep"])
+                    pairs.setdefault(key, set()).add(tuple(o["h"]))
+    pf = os.path.join(d, "pairs.ndjson")
+    with open(pf, "w") as f:
+        for k, hs in pairs.items():
+            for h in hs:
+                f.write(json.dumps({"k": k, "h": list(h)}) + "\n")
+    counts = view_counts(run, "Collide", "SPECIFICATION Spec\nCHECK_DEADLOCK FALSE\n", {"PAIRS": pf}, "c05-collide", workers=2)
+    if counts["PosView"] != counts["HashView"]:
+        run.violation({"w": "two distinct positions visited on the real engine share a hash (or one position has two hashes)",
+                       "d": {"positions": counts["PosView"], "hashes": counts["HashView"]}},
+                      {"driver": "collide", "note": "re-run ./check C05 with the same seed"})
+    run.cov["evaluations"] = nvar + len(pairs) + explored
+    run.cov["distinct_nontrivial"] = len(pairs) + explored
+    run.cov["variants_imported"] = nvar
+    run.cov["impl_positions_hashed"] = len(pairs)
+    run.cov["model_positions_hashed"] = explored
+    run.cov["rule"] = ("(a) 66 feature classes of the real key table, exhaustive; (b) every position of the listed families and of "
+                       "legal play to the listed depth is hashed by spec/Zobrist.tla and TLC counts distinct states under VIEW position "
+                       "and VIEW hash; (c) every single-feature variation (side, 4 rights, 9 ep values, 64x13 contents) of each base "
+                       "position is imported by the real engine and both hashes are judged; positions visited by the play driver are "
+                       "fed back as an initial-state set. distinct = distinct positions")
+    run.assumptions += ["collision freedom is a statement about the explored set only (a 64-bit hash has collisions)",
+                        "implementation hash = Zobrist!Hash is established by C04 on the same kind of traces"]
+    shutil.rmtree(d, ignore_errors=True)
+    run.finish()
+
+
+# --------------------------------------------------------------------------- C17
+
+@check("C17")
+def c17(tier, seed):
+    run = core.Run("C17", tier, seed)
+    vh = prepare()
+    quick = tier == "quick"
+    game.mc_chess(run, [START, EPR] if quick else ALLROOTS, 2 if quick else 3, ["InvSane", "InvFenRoundTrip"], workers=12, tag="C17")
+    d = game.trace_dir("C17")
+    bases = gen.read_roots() + gen.read_roots(os.path.join(core.VERIF, "lib", "fide_roots.txt"))
+    if quick:
+        k = seed % 3
+        bases = bases[k::3]
+    else:
+        famf = families(run, [("CASTLE", 800), ("EP", 12000), ("PROMO", 1000), ("KXK", 9000)], seed, "C17")
+        for f in famf:
+            bases += [l.strip() for l in open(f) if l.strip()]
+    chunks = [bases[i::core.NPROC] for i in range(core.NPROC)]
+
+    def mk(ic):
+        i, chunk = ic
+        lst = os.path.join(d, "base-%d.fens" % i)
+        open(lst, "w").write("\n".join(chunk) + "\n")
+        out = os.path.join(d, "fenmut-%d.ndjson" % i)
+        core.sh([vh, "fenmut", "--fens", lst, "--out", out, "--mode", "exhaustive"])
+        jobs = [(out, "vh fenmut --mode exhaustive (all single-character edits of %d bases, first: %s)" % (len(chunk), chunk[0]))]
+        out2 = os.path.join(d, "fenrand-%d.ndjson" % i)
+        core.sh([vh, "fenmut", "--fens", lst, "--out", out2, "--mode", "random", "--seed", str(seed * 100 + i),
+                 "--n", "300" if quick else "1500"])
+        jobs.append((out2, "vh fenmut --mode random --seed %d (double/triple edits)" % (seed * 100 + i)))
+        return jobs
+    jobs = [j for js in core.pmap(mk, [(i, c) for i, c in enumerate(chunks) if c]) for j in js]
+    strings = set()
+    accepted = 0
+    n = 0
+    for path, _ in jobs:
+        with open(path) as f:
+            for l in f:
+                e = json.loads(l)
+                n += 1
+                strings.add("".join(e["fen"]))
+                accepted += 1 if e["ok"] else 0
+    game.judge_traces(run, jobs, {"C17"})
+    with open(jobs[0][0]) as f:
+        for i, l in enumerate(f):
+            if i in (0, 5, 70, 400):
+                e = json.loads(l)
+                run.sample({"driver": jobs[0][1], "string": "".join(e["fen"]), "accepted": e["ok"], "error": e.get("err")})
+    run.cov["evaluations"] = n
+    run.cov["distinct_nontrivial"] = len(strings)
+    run.cov["accepted_by_engine"] = accepted
+    run.cov["base_fens"] = len(bases)
+    run.cov["rule"] = ("for each base FEN (lib/roots.txt, lib/fide_roots.txt, TLC family members): the base in 4/5/6-field form, every "
+                       "single-character deletion, every insertion and replacement at every index from a 37-symbol alphabet of character "
+                       "classes (piece letters, digits 0-9, '/', '-', space, tab, w W x a h i A e, 2- and 4-byte characters), named "
+                       "whole-field replacements, and random double/triple edits; each string is classified by spec/Fen.tla "
+                       "(MustAccept / MustReject / Grey) and the outcome of Game::new judged; distinct = distinct strings")
+    run.assumptions += ["grey inputs (adjacent digits, unusual castling order/duplicates, ep rank inconsistent with the side, extra fields, "
+                        "non-numeric clocks, irregular whitespace, well-formed text of an insane position) produce no verdict either way"]
+    shutil.rmtree(d, ignore_errors=True)
+    run.finish()
